@@ -317,12 +317,29 @@ pub struct CliPlan {
     pub use_dir: bool,
     pub out: CliOut,
     pub dest_exists: bool,
+    /// the pre-existing destination is much longer than any output
+    #[serde(default)]
+    pub dest_long: bool,
+    /// name of the search directory (may be hidden, e.g. ".specs")
+    #[serde(default)]
+    pub search_name: String,
+    /// how -d names it: "abs" | "dot" (cwd = the directory, `-d .`) | "rel" (`-d ../<name>`)
+    #[serde(default)]
+    pub dir_arg: String,
     pub faults: Vec<Fault>,
     pub entropy: u64,
     pub phase: String,
 }
 
 const OLD: &str = "// previous content\n";
+
+fn old_content(p: &CliPlan) -> Vec<u8> {
+    if p.dest_long {
+        OLD.repeat(6000).into_bytes()
+    } else {
+        OLD.as_bytes().to_vec()
+    }
+}
 
 fn module_text(p: &CliPlan, i: usize) -> String {
     let mut t = p.set.modules[i].text(&p.set.modules);
@@ -478,7 +495,7 @@ impl Scenario for C20Cli {
         let set = gen::generate(&mut w, &cfg);
         let n = set.modules.len();
         let malformed = if w.chance(1, 6) { Some(w.below(n)) } else { None };
-        let dirs = ["", "sub/", "sub/deeper/", "other.d/", "a-b/"];
+        let dirs = ["", "sub/", "sub/deeper/", "other.d/", "a-b/", ".hidden/", "sub/.git-like/"];
         let mut tree = vec![];
         for i in 0..n {
             let ext = *w.pick(&["asn", "asn1", "asn", "ASN", "txt"]);
@@ -516,7 +533,7 @@ impl Scenario for C20Cli {
             3 | 4 => CliOut::Dir,
             _ => CliOut::File,
         };
-        let p = CliPlan { seed, set, malformed, ts: w.chance(1, 3), tree, symlinks, dash_m, use_dir, out, dest_exists: w.chance(1, 2), faults: vec![], entropy: root.fork("hashkeys").next_u64(), phase: "fault-free".into() };
+        let p = CliPlan { seed, set, malformed, ts: w.chance(1, 3), tree, symlinks, dash_m, use_dir, out, dest_exists: w.chance(1, 2), dest_long: w.chance(1, 2), search_name: w.pick(&["specs", "specs", ".specs", "my specs"]).to_string(), dir_arg: w.pick(&["abs", "abs", "dot", "rel"]).to_string(), faults: vec![], entropy: root.fork("hashkeys").next_u64(), phase: "fault-free".into() };
         serde_json::to_value(&p).unwrap()
     }
 
@@ -544,7 +561,7 @@ impl Scenario for C20Cli {
             return out;
         }
         // ---- lay out the tree
-        let search = format!("{root}/specs");
+        let search = format!("{root}/{}", if p.search_name.is_empty() { "specs" } else { p.search_name.as_str() });
         std::fs::create_dir_all(&search).unwrap();
         for e in &p.tree {
             let path = format!("{search}/{}", e.rel);
@@ -560,13 +577,17 @@ impl Scenario for C20Cli {
             std::fs::create_dir_all(std::path::Path::new(&path).parent().unwrap()).unwrap();
             let _ = std::os::unix::fs::symlink(target, &path);
         }
-        let cwd = format!("{root}/cwd");
+        let cwd = if p.use_dir && p.dir_arg == "dot" { search.clone() } else { format!("{root}/cwd") };
         std::fs::create_dir_all(&cwd).unwrap();
         let ext = if p.ts { ".ts" } else { ".rs" };
         let mut args: Vec<String> = vec![];
         if p.use_dir {
             args.push("-d".into());
-            args.push(search.clone());
+            args.push(match p.dir_arg.as_str() {
+                "dot" => ".".to_string(),
+                "rel" => format!("../{}", search.rsplit('/').next().unwrap()),
+                _ => search.clone(),
+            });
         }
         if !p.dash_m.is_empty() {
             args.push("-m".into());
@@ -603,7 +624,7 @@ impl Scenario for C20Cli {
         };
         if p.dest_exists {
             if let Some(f) = &final_path {
-                std::fs::write(f, OLD).unwrap();
+                std::fs::write(f, old_content(&p)).unwrap();
             }
         }
         let run = run_cli(env, root, &args, &cwd, &p.faults, p.entropy);
@@ -708,7 +729,7 @@ impl Scenario for C20Cli {
                 }
                 if p.dest_exists {
                     if let Some(f) = &final_path {
-                        if std::fs::read(f).ok().as_deref() != Some(OLD.as_bytes()) {
+                        if std::fs::read(f).ok() != Some(old_content(&p)) {
                             out.violate("O5-nothing-on-failure", format!("pre-existing destination changed by a failed run; {ctx}"));
                         }
                     }
@@ -855,9 +876,14 @@ impl Scenario for C20Macro {
             let set = gen::generate(&mut w, &cfg);
             let m = &set.modules[0];
             let body: String = m.assigns.iter().map(|a| format!("{}\n", a.text)).collect();
-            let lit = match w.below(10) {
+            let lit = match w.below(13) {
                 // bare snippet: the macro wraps it
                 0..=4 => body,
+                // bare snippets that merely MENTION header keywords (comments, identifiers):
+                // whether they get wrapped is decided by the documented rule only
+                10 => format!("-- the DEFINITIONS below follow the END of clause 7 --\n{body}-- END OF DEFINITIONS\n"),
+                11 => format!("Definitions-List ::= SEQUENCE OF INTEGER\nEND-Marker ::= NULL\n{body}"),
+                12 => format!("BEGINNER-Level ::= INTEGER (0..7)\n{body}"),
                 // a whole module (contains BEGIN): compiled as is, with its own TAGS default
                 5..=7 => m.text(&set.modules),
                 // malformed bare snippet / malformed module: the macro must fail, as the library does
